@@ -10,6 +10,12 @@ From IT.gen Require Import GenInventory.
 Open Scope string_scope.
 
 Theorem SRC_inventory_macros_lib : inv_macros_lib = [
+  ("use either :: Either", []);
+  ("use itertools :: Itertools", []);
+  ("use proc_macro2 :: TokenStream", []);
+  ("use quote :: { quote , ToTokens }", []);
+  ("use strum :: EnumDiscriminants", []);
+  ("use syn :: { braced , parse :: { Parse , ParseStream } , parse_macro_input , punctuated :: Punctuated , Expr , Token , }", []);
   ("struct IndexNode", ["Clone"; "Debug"]);
   ("impl Parse for IndexNode", ["parse := { let node = input . parse :: < Expr > () ? ; if input . parse :: < Token ! [=>] > () . is_err () { return Ok (IndexNode { node , children : Punctuated :: new () , }) ; } let children_stream ; braced ! (children_stream in input) ; let children = children_stream . parse_terminated (Self :: parse , Token ! [,]) ? ; Ok (IndexNode { node , children }) }"]);
   ("struct IndexTree", ["Clone"; "Debug"]);
